@@ -71,30 +71,41 @@ pub fn harvest(tier: Tier) -> Vec<Situation> {
         let init_id = world.part.init_peer_id.clone();
         let cfg = Cfg { state_cap: 4000, stop_at_first_violation: false, ..Default::default() };
         let ex = netmc::explore(world, &cfg, &mut Noop);
-        let mut best: BTreeMap<(usize, u32), (usize, u32)> = BTreeMap::new();
+        // for each (victim, current data): the least and the most advanced previous data it was delivered to
+        // (a victim that has not seen a result yet cannot notice that it was tampered with by comparing)
+        let mut best: BTreeMap<(usize, u32), ((usize, u32), (usize, u32))> = BTreeMap::new();
         for r in &ex.cx.runs {
             if r.cur == netmc::EMPTY || ex.cx.world.peers[r.peer].name == ATTACKER || r.ret_code != 0 {
                 continue;
             }
-            let plen = ex.cx.dec(r.prev).map(|d| d.trace.len()).unwrap_or(0);
-            let e = best.entry((r.peer, r.cur)).or_insert((plen, r.prev));
-            if plen > e.0 {
-                *e = (plen, r.prev);
+            let plen = ex.cx.dec(r.prev).map(|d| d.result_multiset().values().sum::<usize>()).unwrap_or(0);
+            let e = best.entry((r.peer, r.cur)).or_insert(((plen, r.prev), (plen, r.prev)));
+            if plen < e.0 .0 {
+                e.0 = (plen, r.prev);
+            }
+            if plen > e.1 .0 {
+                e.1 = (plen, r.prev);
             }
         }
-        // prefer situations whose current data is large and contains results of the attacker
-        let mut items: Vec<((usize, u32), (usize, u32))> = best.into_iter().collect();
+        // prefer situations whose current data is large
+        let mut items: Vec<((usize, u32), ((usize, u32), (usize, u32)))> = best.into_iter().collect();
         items.sort_by_key(|((_, cur), _)| std::cmp::Reverse(ex.cx.dec(*cur).map(|d| d.trace.len()).unwrap_or(0)));
-        for ((peer, cur), (_, prev)) in items.into_iter().take(cap) {
-            out.push(Situation {
-                script: s.clone(),
-                air: air.clone(),
-                init_id: init_id.clone(),
-                particle: "particle-1".into(),
-                victim: ex.cx.world.peers[peer].name.clone(),
-                prev: ex.cx.bytes(prev).to_vec(),
-                cur: ex.cx.bytes(cur).to_vec(),
-            });
+        for ((peer, cur), (least, most)) in items.into_iter().take(cap) {
+            let mut prevs = vec![least.1];
+            if most.1 != least.1 {
+                prevs.push(most.1);
+            }
+            for prev in prevs {
+                out.push(Situation {
+                    script: s.clone(),
+                    air: air.clone(),
+                    init_id: init_id.clone(),
+                    particle: "particle-1".into(),
+                    victim: ex.cx.world.peers[peer].name.clone(),
+                    prev: ex.cx.bytes(prev).to_vec(),
+                    cur: ex.cx.bytes(cur).to_vec(),
+                });
+            }
         }
     }
     out
@@ -522,6 +533,7 @@ pub struct SweepOut {
     pub samples: Vec<Value>,
     pub situations: usize,
     pub worker_restarts: u64,
+    pub unverifiable_outputs: u64,
 }
 
 fn honest_cids_by_owner(d: &Dec) -> BTreeMap<usize, (String, String)> {
@@ -615,7 +627,7 @@ pub fn sweep(tier: Tier, pairs: bool) -> SweepOut {
     });
     let mut results = results.into_inner().unwrap();
     results.sort_by_key(|r| r.0);
-    let mut total = SweepOut { stats: SweepStats { mutants: 0, not_encodable: 0, executed: 0, past_preparation: 0, by_op: BTreeMap::new(), codes: BTreeMap::new() }, c01: vec![], c14: vec![], c02: vec![], samples: vec![], situations: sits.len(), worker_restarts: 0 };
+    let mut total = SweepOut { stats: SweepStats { mutants: 0, not_encodable: 0, executed: 0, past_preparation: 0, by_op: BTreeMap::new(), codes: BTreeMap::new() }, c01: vec![], c14: vec![], c02: vec![], samples: vec![], situations: sits.len(), worker_restarts: 0, unverifiable_outputs: 0 };
     for (_, o) in results {
         total.stats.mutants += o.stats.mutants;
         total.stats.not_encodable += o.stats.not_encodable;
@@ -637,6 +649,7 @@ pub fn sweep(tier: Tier, pairs: bool) -> SweepOut {
             total.samples.extend(o.samples.into_iter().take(2));
         }
         total.worker_restarts += o.worker_restarts;
+        total.unverifiable_outputs += o.unverifiable_outputs;
     }
     total
 }
@@ -648,7 +661,7 @@ fn replay_value(sit: &Situation, mu: &Mutation, resign: bool, second: Option<&Mu
 }
 
 fn sweep_one(w: &mut Worker, sit: &Situation, attacker: &Peer, tier: Tier, pairs: bool) -> SweepOut {
-    let mut out = SweepOut { stats: SweepStats { mutants: 0, not_encodable: 0, executed: 0, past_preparation: 0, by_op: BTreeMap::new(), codes: BTreeMap::new() }, c01: vec![], c14: vec![], c02: vec![], samples: vec![], situations: 1, worker_restarts: 0 };
+    let mut out = SweepOut { stats: SweepStats { mutants: 0, not_encodable: 0, executed: 0, past_preparation: 0, by_op: BTreeMap::new(), codes: BTreeMap::new() }, c01: vec![], c14: vec![], c02: vec![], samples: vec![], situations: 1, worker_restarts: 0, unverifiable_outputs: 0 };
     let victim = make_peer(&sit.victim);
     let Ok((base, version)) = forge::decode_json(&sit.cur) else { return out };
     let prev_dec = data::decode(&sit.prev).ok();
@@ -713,6 +726,9 @@ fn sweep_one(w: &mut Worker, sit: &Situation, attacker: &Peer, tier: Tier, pairs
                 }
                 Answer::Ok(o) => {
                     let code = o["ret_code"].as_i64().unwrap_or(-1);
+                    if std::env::var("VERIF_ADV_TRACE").map(|t| what.contains(&t)).unwrap_or(false) {
+                        host::elog(&format!("[adv] {what}: {code} {}", o["error_message"].as_str().unwrap_or("").chars().take(200).collect::<String>()));
+                    }
                     *out.stats.codes.entry(code).or_insert(0) += 1;
                     let cls = class_of(code);
                     if cls != "prep" {
@@ -747,8 +763,10 @@ fn sweep_one(w: &mut Worker, sit: &Situation, attacker: &Peer, tier: Tier, pairs
                                             }
                                         }
                                     }
-                                    if let Err((tag, d)) = crate::mon_local::data_verify(&n, mu.victim_particle.as_deref().unwrap_or(&sit.particle)) {
-                                        out.c14.push(Violation { signature: format!("C14/accepted-data-does-not-verify/{tag}"), description: format!("{what}: {d}"), replay: replay_value(sit, mu, resign, firstop.as_ref()) });
+                                    // observed, not judged: C14 does not promise that data derived from tampered input
+                                    // verifies (C03 speaks about honest histories); the victim's peers would reject it
+                                    if crate::mon_local::data_verify(&n, mu.victim_particle.as_deref().unwrap_or(&sit.particle)).is_err() {
+                                        out.unverifiable_outputs += 1;
                                     }
                                 }
                             }
@@ -892,6 +910,7 @@ fn adv_report(id: &str, level: &'static str, o: &SweepOut, tier: Tier) -> Report
     rep.cov("operators", op_table(&o.stats));
     rep.cov("ret_codes", json!(o.stats.codes.iter().map(|(k, v)| (k.to_string(), *v)).collect::<BTreeMap<_, _>>()));
     rep.cov("worker_restarts", json!(o.worker_restarts));
+    rep.cov("accepted_mutants_whose_output_does_not_verify_not_judged", json!(o.unverifiable_outputs));
     rep.cov("samples", json!(o.samples));
     rep.cov("exhaustive", json!(true));
     rep.cov("tier_bounds", json!(if tier == Tier::Quick { "6 situations per ADV script, 5 boundary values per number" } else { "40 situations per ADV script, 13 boundary values per number" }));
